@@ -14,6 +14,7 @@ def run(rep, tier):
     errs = [r for r in res if "harness_error" in r]
     if errs:
         raise lib.Infra("harness error: " + errs[0]["harness_error"] + errs[0].get("tb", ""))
+    res, n_unusable = lib.unusable_guard(rep, PROP, res, "component instances")
     st = collections.Counter(f"{r['kind']}:{r['status']}" for r in res)
     seen = set()
     for r in res:
